@@ -90,6 +90,16 @@ class Linear(Transform):
             self.cache.invalidate()
         return super().train(mode)
 
+    def _apply(self, fn, *args, **kwargs):
+        # Device / dtype conversions replace the parameters the cache was computed from.
+        self.cache.invalidate()
+        return super()._apply(fn, *args, **kwargs)
+
+    def _load_from_state_dict(self, *args, **kwargs):
+        # Loaded parameters make any cached weight stale.
+        self.cache.invalidate()
+        return super()._load_from_state_dict(*args, **kwargs)
+
     def use_cache(self, mode=True):
         if not check.is_bool(mode):
             raise TypeError("Mode must be boolean.")
